@@ -1,6 +1,8 @@
 """C06 — a mapreduce query accounts for every file of every server under any scheduling."""
 
 MODULE = "DtailModel.Props.C06"
+# scripts with real waits: a disagreement counts only if it reproduces when re-run alone (flake policy, DESIGN 2.3)
+TIMED_OPS = ("c06.fifo", "c06.queue", "c06.merge", "c06.server")
 GROUPS = ["C06"]
 LOGGER = "none"
 JOBS = 16
